@@ -411,6 +411,35 @@ def routes(W):
     return out
 
 
+def route_params_plain(rep, W, rule="H-ROUTE"):
+    """Path parameters of the protocol routes are plain `{name}` segments: the id is parsed by the typed extractor
+    (Uuid::parse_str, every textual form, every UUID version).  A pattern (`{id:[0-9a-f]..}`) makes the ROUTER answer 404 --
+    which on these endpoints means "no such version" -- for ids the other endpoints accept."""
+    import re
+    n = 0
+    for r in routes(W):
+        if "::api::" not in r["factory"] or r["path"] is None:
+            continue
+        segs, depth, cur = [], 0, ""
+        for ch in r["path"]:          # top-level {..} groups (a pattern may itself contain {n} quantifiers)
+            if ch == "{":
+                depth += 1
+            if depth:
+                cur += ch
+            if ch == "}" and depth:
+                depth -= 1
+                if depth == 0:
+                    segs.append(cur)
+                    cur = ""
+        for seg in segs:
+            n += 1
+            rep.ob(rule, (r["factory"].split("::")[-2], "plain-path-parameter", seg.split(":")[0].strip("{}")), re.fullmatch(r"\{[A-Za-z_][A-Za-z0-9_]*\}", seg) is not None,
+                   "route %s: path parameter %s %s" % (r["path"][:60], seg[:40], "is a plain segment" if re.fullmatch(r"\{[A-Za-z_][A-Za-z0-9_]*\}", seg) else
+                                                       "carries a pattern: ids outside it are answered 404 by the router although they are valid ids elsewhere"),
+                   where(r["body"]), nontrivial=False)
+    rep.floor(rule, "path parameters of protocol routes", n, 3)
+
+
 def scope_chain(W, body):
     """Decode a `web::scope(prefix).x(..).y(..)` builder chain returned / passed by `body`:
     [(method, arg terms, bb)] innermost first, plus the prefix; None if not a scope chain."""
